@@ -94,6 +94,9 @@ def gen_program(r, maxsteps=9, maxh=6, read_bias=0.2, assign_bias=0.2):
         c = r.random()
         if c < read_bias:
             st = ["read", h, r.choice(READ_KINDS)]
+        elif c < read_bias + assign_bias and r.random() < 0.12:
+            val += 1
+            st = ["fill", h, val]
         elif c < read_bias + assign_bias:
             rs, cs = rnd_sel(r, hl)
             if not norepeat_rows(rs, len(hl)):
